@@ -48,7 +48,9 @@ async fn main() {
     let mut forged1 = ch[1].clone(); forged1.hash = Hash::digest(b"forged id 1");
     let extras = [skip, forged0, forged1];
     let extra_names = ["skip-ahead seq 4 backlinking entry 1", "forged-id copy of entry 0", "forged-id copy of entry 1"];
-    for p in perms(5) {
+    let quick = _a.tier != "thorough";
+    for (pi, p) in perms(5).into_iter().enumerate() {
+        if quick && pi % 4 != 0 { continue; }   // quick tier: every 4th delivery order
         for extra_at in 0..=5usize {
             for ex in 0..extras.len() {
                 let store = SqliteStore::temporary().await;
@@ -81,7 +83,8 @@ async fn main() {
     // height, non-flagged stored entries must backlink to their stored predecessor.
     let ch6 = rp_stream::chain(&sk, 6);
     let flagged = [false, false, true, false, true, false];
-    for p in perms(6) {
+    for (pi, p) in perms(6).into_iter().enumerate() {
+        if quick && pi % 3 != 0 { continue; }
         let store = SqliteStore::temporary().await;
         let mut height: i64 = -1;
         let mut order = vec![];
